@@ -75,6 +75,20 @@ def scenarios(ctx, thorough):
     return scs
 
 
+def keepalive_observation(ctx):
+    """Routines.tla, Keepalive: a client that sits idle for two ticker periods.  As coded (PongIgnored) the pinging routine
+    never comes back from its first call; the number of pings the reference server saw is recorded as an observation - C16
+    demands that later requests complete (the probe at the end is judged like every other), not a keep-alive."""
+    sc = S.mk(1, "idle-two-ticker-periods", "robust", [{"a": "Probe", "tag": 90}, {"a": "Sleep", "n": int(__import__("os").environ.get("VERIF_IDLE_MS", "128000"))}, {"a": "Probe", "tag": 91}, {"a": "Settle"}])
+    st = S.judge(ctx, [sc], S.K_LIVE | S.K_CONN | S.K_RESULT, "robust", batch=1)
+    evs = ctx.last_events.get(sc["id"], [])
+    pings = [e for e in evs if e.get("e") == "Wire" and e.get("kind") == "ping"]
+    probes = [e for e in evs if e.get("e") == "Return"]
+    return {"what": "idle for 128 s on one connection (two periods of the one-minute ticker)", "pings_seen_by_the_server": len(pings),
+            "as_specified": 2, "as_coded_PongIgnored": 1, "probes_returned": len(probes),
+            "reading": "keep-alive stops after the first ping of a connection" if len(pings) < 2 else "keep-alive continues"}
+
+
 def run(ctx):
     thorough = ctx.tier == "thorough"
     mc = model_check(ctx, False)
@@ -82,10 +96,19 @@ def run(ctx):
     C.run_tlc(ctx, "Client", "ClientDevAbortContainerLive.cfg", workers=4, expect_violation=True, timeout=600, tag="sensitivity:AbortContainerOnItemError")
     C.run_tlc(ctx, "Client", "ClientClose.cfg", workers=C.NCPU, timeout=1800, tag="ClientClose.cfg")
     C.run_tlc(ctx, "Client", "ClientDevDieOnEof.cfg", workers=4, expect_violation=True, timeout=300, tag="sensitivity:DieOnEof")
+    # the goroutines behind a connection: contexts, reading and pinging routines, server close, migration, ticker
+    mr = C.run_tlc(ctx, "Routines", "Routines.cfg", workers=4, timeout=600, deadlock=False, tag="Routines.cfg")
+    C.run_tlc(ctx, "Routines", "RoutinesDevStaleLoopReconnects.cfg", workers=2, expect_violation=True, timeout=300, deadlock=False,
+              tag="sensitivity:StaleLoopReconnects")
+    C.run_tlc(ctx, "Routines", "RoutinesDevPongIgnored.cfg", workers=2, expect_violation=True, timeout=300, deadlock=False,
+              tag="as-coded:PongIgnored")
     scs = scenarios(ctx, thorough)
     st = S.judge(ctx, scs, S.K_LIVE | S.K_CONN | S.K_RESULT, "robust", batch=4)
+    observations = []
+    if thorough:
+        observations.append(keepalive_observation(ctx))
     C.write_evidence(ctx, "model_checking", {
-        "states": mc.distinct + mj.distinct, "transitions": mc.generated + mj.generated, "traces_validated_against_impl": st["scenarios"],
+        "states": mc.distinct + mj.distinct + mr.distinct, "transitions": mc.generated + mj.generated + mr.generated, "traces_validated_against_impl": st["scenarios"],
         "evaluations": st["events"], "distinct_nontrivial": st["scenarios"],
         "rule": "Client.tla: the loop never blocks on a hand-over nobody takes and keeps reading (NoStall*, LoopKeepsReading), also when "
                 "containers hold an item nobody waits for (ClientJunk.cfg; AbortContainerOnItemError must stall a caller); behaviours of that "
@@ -94,6 +117,6 @@ def run(ctx):
                 "empty and nested containers, unsolicited and repeated results, bad_msg_notification, transport error code, garbage and "
                 "short frames), singly (with and without warning channel + handler), in seeded pairs, and orderly close at message "
                 "boundaries - each followed by a probe that must complete; child process observed for death; judged by TLC (ClientTrace)",
-        "samples": st["sample"], "exhaustive": False, "verdict_kinds_seen": st["verdict_kinds"], "kinds_not_judged_here": st["ignored_kinds"],
+        "samples": st["sample"], "exhaustive": False, "observations_outside_the_property": observations, "verdict_kinds_seen": st["verdict_kinds"], "kinds_not_judged_here": st["ignored_kinds"],
     }, ["the warning channel is drained by the harness (a user who installs it is expected to read it)",
         "orderly close = FIN after the last complete frame"])
